@@ -101,7 +101,7 @@ def check_case(ctx, case):
         next_cls = PS.build_class(clean_prog, fr.rec, Wn)
         try:
             out_next = PS.execute(next_cls, clean_prog)
-            if out_next[0] == 'exc' and out_next[1] != 'Err':
+            if out_next[0] == 'exc' and out_next[1] not in ('Err', clean_prog.get('ending_exc', 'Err')):
                 raise Violation('the next operation on the same recorder failed with %s: %s (%s)' % (
                     out_next[1], out_next[2], what), 'next-operation')
             log_next = fr.cas.spy_log[n0:]
